@@ -104,6 +104,9 @@ class Exec:
     def __init__(self, module, summaries=None, ext_globals=None, trace=False, concrete_layout=False):
         self.mod = module
         self.concrete_layout = concrete_layout
+        self.share_threshold = 0      # > 0: wrap values whose XOR sums exceed this many leaves into sharing nodes
+        self.cuts = None              # {(fn, reg, occurrence): [(bit offset, nbits, name)]}: replace those bits by fresh variables
+        self.cut_terms = {}           # name -> original term (over the previous cut variables)
         self.ty = module.types
         self.summaries = summaries or {}
         self.summary_res = []       # (compiled regex, fn)
@@ -132,6 +135,9 @@ class Exec:
         self.undef_n = 0
         self.fnstack = []
         self.once_done = {}
+        self.occ = {}
+        self.cut_terms = {}
+        self.cut_vals = {}
 
     def new_obj(self, size, align, name, kind='arg', writable=True, init=None):
         self.nobj += 1
@@ -558,9 +564,41 @@ class Exec:
                         raise Inconclusive('reached unreachable in ' + f.name)
                     r = self.step(f, env, ins, allocas)
                     if ins.dst is not None:
+                        if self.share_threshold and r is not None and ins.ty is not None and ins.ty[0] in ('vec', 'int'):
+                            th = self.share_threshold
+                            if ins.ty[0] == 'vec':
+                                if any(T.maxleaves(x) > th for x in r):
+                                    r = [T.opaque(x) if T.maxleaves(x) > th else x for x in r]
+                            elif T.maxleaves(r) > th:
+                                r = T.opaque(r)
+                        if (self.trace is not None or self.cuts is not None) and ins.ty is not None and ins.ty[0] == 'vec':
+                            k = (f.name, ins.dst)
+                            occ = self.occ.get(k, 0)
+                            self.occ[k] = occ + 1
+                            if self.cuts is not None:
+                                c = self.cuts.get((f.name, ins.dst, occ))
+                                if c:
+                                    bits = self.to_bits(ins.ty, r)
+                                    for ent in c:
+                                        off, nb, nm = ent[0], ent[1], ent[2]
+                                        w = T.width(bits)
+                                        if nm is None:
+                                            # remember this value: a later cut is expressed relative to it
+                                            self.cut_vals[(f.name, ins.dst, occ, off)] = T.extract(bits, off, nb)
+                                            continue
+                                        orig = T.extract(bits, off, nb)
+                                        new = T.var(nm, nb)
+                                        if len(ent) > 3 and ent[3] is not None:
+                                            # virtual cut: (this value XOR partner) is the quantity of interest
+                                            partner = self.cut_vals[ent[3]]
+                                            orig = T.bxor(orig, partner)
+                                            new = T.bxor(new, partner)
+                                        self.cut_terms[nm] = orig
+                                        bits = T.concat([T.extract(bits, 0, off), new, T.extract(bits, off + nb, w - off - nb)])
+                                    r = self.from_bits(ins.ty, bits)
+                            if self.trace is not None:
+                                self.trace.append((f.name, ins.dst, occ, ins.ty, r))
                         env[ins.dst] = r
-                        if self.trace is not None and ins.ty is not None and ins.ty[0] == 'vec':
-                            self.trace.append((f.name, ins.dst, ins.ty, r))
                 if stats['ins'] > self.max_ins:
                     raise Inconclusive('instruction budget exceeded')
                 prev, blk = blk, nxt
@@ -807,8 +845,12 @@ class Exec:
                     return T.const(0, 1)
                 if pred == 'ne':
                     return T.const(1, 1)
-                # ordering of distinct objects: symbolic (forks) - uses the base variables
-                return T.icmp(pred, a, b)
+                # ordering of distinct live objects (only run-time overlap checks of vectorised loops and memmove ask):
+                # objects never overlap; the relative order is fixed by allocation order. Either outcome of such a
+                # check selects between semantically equal code versions, so one layout is explored (stated assumption).
+                self.stats['cross_object_order_checks'] = self.stats.get('cross_object_order_checks', 0) + 1
+                lt = oa.id < ob.id
+                return T.const(int({'ult': lt, 'ule': lt, 'ugt': not lt, 'uge': not lt}[pred]), 1)
         return T.icmp(pred, a, b)
 
     # ---------------------------------------------------------------- intrinsics
